@@ -189,9 +189,40 @@ def lake_build(targets, timeout=3600):
 _ERR = re.compile(r"^error: (\S+?\.lean):(\d+):(\d+): (.*)$", re.M)
 
 
+def gen_driver():
+    """Driver.lean = dispatcher over every OsmoVerif/Driver/*.lean module (except Util);
+    each such module X defines `OsmoVerif.Driver.X.handle : List String → Option String`."""
+    d = os.path.join(LEAN, "OsmoVerif/Driver")
+    mods = sorted(f[:-5] for f in os.listdir(d) if f.endswith(".lean") and f != "Util.lean")
+    txt = "-- GENERATED by lib/vf.py (gen_driver): line-protocol driver over the executable models.\n"
+    txt += "-- One request per line, one canonical answer per line; unknown or malformed requests\n"
+    txt += "-- answer `bad-op` (never a default value).\n"
+    txt += "".join("import OsmoVerif.Driver.%s\n" % m for m in mods)
+    txt += "\nopen OsmoVerif.Driver\n\ndef dispatch (toks : List String) : Option String :=\n"
+    txt += "".join("  (%s.handle toks) <|>\n" % m for m in mods) + "  none\n"
+    txt += """
+partial def loop (hin : IO.FS.Stream) (hout : IO.FS.Stream) : IO Unit := do
+  let line ← hin.getLine
+  if line.isEmpty then return ()
+  let toks := (line.trimAscii.toString.splitOn " ").filter (· ≠ "")
+  match dispatch toks with
+  | some out => hout.putStrLn out
+  | none => hout.putStrLn "bad-op"
+  loop hin hout
+
+def main : IO Unit := do
+  let hin ← IO.getStdin
+  let hout ← IO.getStdout
+  loop hin hout
+  hout.flush
+"""
+    write_if_changed(os.path.join(LEAN, "Driver.lean"), txt)
+
+
 def prove(modules, extra_targets=("driver",)):
     """build the Props modules, audit their axioms, grep forbidden tokens"""
     res = ProofResult()
+    gen_driver()
     for m in modules:
         res.theorems += theorems_of(m)
     # forbidden tokens anywhere in the hand-written or generated Lean sources
